@@ -258,7 +258,7 @@ CHECKS = {
         note='trusted: differential oracle only; 8 known findings (D13: STRICT groups encode in structure order)'),
     'C06': dict(
         engine=E1, design_ref='DESIGN.md section 7 C06',
-        technique='bounded-exhaustive enumeration (all strings <= 5/6 over the delimiter/escape alphabet x every textual '
+        technique='bounded-exhaustive enumeration (all strings <= 5 (thorough: 6 for one class per escaping family) over the delimiter/escape alphabet x every textual '
                   'datatype class x all injective delimiter assignments over a punctuation pool) of the real encoder, '
                   'checked by a reference tokenizer',
         text='Every string up to the length bound over an alphabet that contains each delimiter, the escape character, '
